@@ -10,6 +10,16 @@ open Influx.Generated
 
 variable {V : Type}
 
+/-- "at most `bound` blocks" (no bound for `none`) -/
+def LenOK (bound : Option Nat) (n : Nat) : Prop := ∀ m, bound = some m → n ≤ m
+
+theorem lenOK_mono {bound : Option Nat} {n n' : Nat} (h : n' ≤ n) (hn : LenOK bound n) : LenOK bound n' :=
+  fun m hm => Nat.le_trans h (hn m hm)
+
+/-- the sort of `cfg` does what `merge<T>()` needs on every list of at most `bound` blocks -/
+def SortLaw (cfg : Cfg) (bound : Option Nat) : Prop :=
+  ∀ {V : Type} (l : List (Block V)), LenOK bound l.length → SortSpecAt cfg l
+
 /-- a block as the reader hands it to the iterator: well formed, nothing read yet -/
 def Fresh (b : Block V) : Prop := BlockWF b ∧ b.readMin = maxInt64 ∧ b.readMax = minInt64
 
@@ -27,33 +37,33 @@ structure KeyTail (size : Nat) (orig : List (Block V)) (target : Int → Option 
 
 /-- the per-key invariant at a call of `Next`: `Oe` = values of the key already written
     (including the block `Read` returned last, the head of `k.merged`) -/
-structure CurInv (cfg : Cfg) (k : Iter V) (Oe : Pts V) (target : Int → Option V) (orig : List (Block V)) : Prop where
+structure CurInv (cfg : Cfg) (bound : Option Nat) (k : Iter V) (Oe : Pts V) (target : Int → Option V) (orig : List (Block V)) : Prop where
   inv : ∃ T, KInv T k.st (Oe ++ outPts k.st.merged.tail) target
   pend : ∀ o ∈ k.st.merged.tail, BlockFact cfg.size orig o
-  len20 : k.st.blocks.length ≤ 20
+  len20 : LenOK bound k.st.blocks.length
   same : ∀ b ∈ k.st.blocks, ∃ b0 ∈ orig, SameStatic b b0
   lens : k.its.length = k.buf.length
   rwf : ∀ f ∈ allRuns k.its k.buf, RunsWF f
   fresh : ∀ k', ∀ b ∈ blocksFor (allRuns k.its k.buf) k', Fresh b
-  cap : ∀ k', (blocksFor (allRuns k.its k.buf) k').length ≤ 20
+  cap : ∀ k', LenOK bound (blocksFor (allRuns k.its k.buf) k').length
   above : ∀ f ∈ allRuns k.its k.buf, ∀ r ∈ f, keyLt k.key r.1 = true
 
 /-- the iterator left the current key: which keys disappeared from the files -/
-structure Moved (cfg : Cfg) (R : List (FileRuns V)) (key0 : Key) (more : Bool) (k' : Iter V) : Prop where
+structure Moved (cfg : Cfg) (bound : Option Nat) (R : List (FileRuns V)) (key0 : Key) (more : Bool) (k' : Iter V) : Prop where
   runs : ∀ k'', blocksFor (allRuns k'.its k'.buf) k'' = blocksFor R k'' ∨
       (blocksFor (allRuns k'.its k'.buf) k'' = [] ∧
         ((more = true ∧ k'' = k'.key) ∨ ∀ t, restAt (blocksFor R k'') t = none))
   next : more = true → keyLt key0 k'.key = true ∧ ∃ o ms, k'.st.merged = o :: ms ∧
       BlockFact cfg.size (blocksFor R k'.key) o ∧
-      CurInv cfg k' o.pts (restAt (blocksFor R k'.key)) (blocksFor R k'.key)
+      CurInv cfg bound k' o.pts (restAt (blocksFor R k'.key)) (blocksFor R k'.key)
   done : more = false → ∀ k'', blocksFor (allRuns k'.its k'.buf) k'' = []
 
 /-- result of one `Next` call -/
-def NextOK (cfg : Cfg) (k : Iter V) (Oe : Pts V) (target : Int → Option V) (orig : List (Block V))
+def NextOK (cfg : Cfg) (bound : Option Nat) (k : Iter V) (Oe : Pts V) (target : Int → Option V) (orig : List (Block V))
     (more : Bool) (k' : Iter V) : Prop :=
   (more = true ∧ k'.key = k.key ∧ allRuns k'.its k'.buf = allRuns k.its k.buf ∧
-    ∃ o ms, k'.st.merged = o :: ms ∧ BlockFact cfg.size orig o ∧ CurInv cfg k' (Oe ++ o.pts) target orig)
-  ∨ (KeyTail cfg.size orig target Oe [] ∧ Moved cfg (allRuns k.its k.buf) k.key more k')
+    ∃ o ms, k'.st.merged = o :: ms ∧ BlockFact cfg.size orig o ∧ CurInv cfg bound k' (Oe ++ o.pts) target orig)
+  ∨ (KeyTail cfg.size orig target Oe [] ∧ Moved cfg bound (allRuns k.its k.buf) k.key more k')
 
 theorem passThrough_same {b b0 : Block V} (h : SameStatic b b0) : passThrough b = passThrough b0 := by
   obtain ⟨h1, h2, h3, _⟩ := h
@@ -86,15 +96,15 @@ theorem kinv_fresh (bl : List (Block V)) (hf : ∀ b ∈ bl, Fresh b) :
 
 
 /-- one conditional `merge<T>()` of `Next`, with `k.merged` empty -/
-theorem mergeIf_phase (cfg : Cfg) (hs : 0 < cfg.size) {T : Int} {st st' : KSt V} {Oe : Pts V}
+theorem mergeIf_phase (cfg : Cfg) (bound : Option Nat) (law : SortLaw cfg bound) (hs : 0 < cfg.size) {T : Int} {st st' : KSt V} {Oe : Pts V}
     {target : Int → Option V} {orig : List (Block V)} (cond : Bool)
-    (inv : KInv T st Oe target) (hm : st.merged = []) (hlen : st.blocks.length ≤ 20)
+    (inv : KInv T st Oe target) (hm : st.merged = []) (hlen : LenOK bound st.blocks.length)
     (hsame : ∀ b ∈ st.blocks, ∃ b0 ∈ orig, SameStatic b b0)
     (h : mergeIf cfg cond st = .ok st') :
     (∃ T', KInv T' st' (Oe ++ outPts st'.merged) target) ∧
     (∀ o ∈ st'.merged, BlockFact cfg.size orig o) ∧
     (∀ b ∈ st'.blocks, ∃ b0 ∈ orig, SameStatic b b0) ∧
-    st'.blocks.length ≤ 20 ∧
+    LenOK bound st'.blocks.length ∧
     (cond = true → st'.merged = [] → st'.mv = [] ∧ st'.blocks = []) ∧
     (cond = false → st' = st) := by
   unfold mergeIf at h
@@ -105,10 +115,10 @@ theorem mergeIf_phase (cfg : Cfg) (hs : 0 < cfg.size) {T : Int} {st st' : KSt V}
     refine ⟨⟨T, by rw [hm]; simpa using inv⟩, by rw [hm]; simp, hsame, hlen, by simp, fun _ => rfl⟩
   | true =>
     simp only [if_true] at h
-    have so := mergeStep_spec cfg inv hm hlen h
+    have so := mergeStep_spec cfg inv hm (law _ hlen) h
     obtain ⟨f1, f2⟩ := stepOut_facts so hsame
     obtain ⟨T', _, inv'⟩ := so.hex
-    exact ⟨⟨T', inv'⟩, f1, f2, Nat.le_trans so.hlen hlen, fun _ => so.hempty hs, by simp⟩
+    exact ⟨⟨T', inv'⟩, f1, f2, lenOK_mono so.hlen hlen, fun _ => so.hempty hs, by simp⟩
 
 @[simp] theorem popMerged_blocks (st : KSt V) : (popMerged st).blocks = st.blocks := by
   unfold popMerged; split <;> rfl
@@ -135,13 +145,13 @@ theorem mem_blocksFor {R : List (FileRuns V)} {k : Key} {b : Block V} (h : b ∈
   exact ⟨f, hf, r, hr, hk, hb⟩
 
 /-- `Next` returns with a block of the current key at the head of `k.merged` -/
-theorem caseA_of_merged (cfg : Cfg) {k : Iter V} {Oe : Pts V} {target : Int → Option V} {orig : List (Block V)}
-    (ci : CurInv cfg k Oe target orig) {T2 : Int} {st2 : KSt V} {o : OBlk V} {ms : List (OBlk V)}
+theorem caseA_of_merged (cfg : Cfg) (bound : Option Nat) {k : Iter V} {Oe : Pts V} {target : Int → Option V} {orig : List (Block V)}
+    (ci : CurInv cfg bound k Oe target orig) {T2 : Int} {st2 : KSt V} {o : OBlk V} {ms : List (OBlk V)}
     (hmg : st2.merged = o :: ms)
     (inv2 : KInv T2 st2 (Oe ++ outPts st2.merged) target)
     (fact2 : ∀ o ∈ st2.merged, BlockFact cfg.size orig o)
-    (same2 : ∀ b ∈ st2.blocks, ∃ b0 ∈ orig, SameStatic b b0) (len2 : st2.blocks.length ≤ 20) :
-    NextOK cfg k Oe target orig true { k with st := st2 } := by
+    (same2 : ∀ b ∈ st2.blocks, ∃ b0 ∈ orig, SameStatic b b0) (len2 : LenOK bound st2.blocks.length) :
+    NextOK cfg bound k Oe target orig true { k with st := st2 } := by
   left
   refine ⟨rfl, rfl, rfl, o, ms, hmg, fact2 o (by rw [hmg]; simp), ?_⟩
   refine ⟨⟨T2, ?_⟩, ?_, len2, same2, ci.lens, ci.rwf, ci.fresh, ci.cap, ci.above⟩
@@ -161,10 +171,10 @@ theorem kst_eta (st : KSt V) (h1 : st.blocks = []) (h2 : st.mv = []) (h3 : st.me
   cases st; simp_all
 
 /-- `tsmBatchKeyIterator.Next` -/
-theorem next_spec (cfg : Cfg) (hs : 0 < cfg.size) :
+theorem next_spec (cfg : Cfg) (bound : Option Nat) (law : SortLaw cfg bound) (hs : 0 < cfg.size) :
     ∀ (fuel : Nat) (k : Iter V) (Oe : Pts V) (target : Int → Option V) (orig : List (Block V)),
-      CurInv cfg k Oe target orig →
-      ∀ more k', Iter.next cfg fuel k = .ok (more, k') → NextOK cfg k Oe target orig more k' := by
+      CurInv cfg bound k Oe target orig →
+      ∀ more k', Iter.next cfg fuel k = .ok (more, k') → NextOK cfg bound k Oe target orig more k' := by
   intro fuel
   induction fuel with
   | zero => intro k Oe target orig _ more k' h; simp [Iter.next, throw, throwThe, MonadExceptOf.throw] at h
@@ -192,7 +202,7 @@ theorem next_spec (cfg : Cfg) (hs : 0 < cfg.size) :
       | nil => rw [hpt, hmt] at hp; simp at hp
       | cons o ms =>
         have hmg : (popMerged k.st).merged = o :: ms := by rw [hpt, hmt]
-        apply caseA_of_merged cfg ci hmg (T2 := T)
+        apply caseA_of_merged cfg bound ci hmg (T2 := T)
         · rw [hmg, ← hmt]
           exact ⟨by simpa using inv.hb, by simpa using inv.hasc, by simpa using inv.hle, by simpa using inv.hc⟩
         · intro x hx
@@ -214,7 +224,7 @@ theorem next_spec (cfg : Cfg) (hs : 0 < cfg.size) :
       simp only [outPts_nil, List.append_nil] at inv
       have inv1 : KInv T (popMerged k.st) Oe target :=
         ⟨by simpa using inv.hb, by simpa using inv.hasc, by simpa using inv.hle, by simpa using inv.hc⟩
-      have len1 : (popMerged k.st).blocks.length ≤ 20 := by simpa using ci.len20
+      have len1 : LenOK bound (popMerged k.st).blocks.length := by simpa using ci.len20
       have same1 : ∀ b ∈ (popMerged k.st).blocks, ∃ b0 ∈ orig, SameStatic b b0 := by simpa using ci.same
       generalize popMerged k.st = st1 at h hst1 inv1 len1 same1
       -- merged values pending?
@@ -224,7 +234,7 @@ theorem next_spec (cfg : Cfg) (hs : 0 < cfg.size) :
       rw [h2] at h
       simp only at h
       obtain ⟨⟨T2, inv2⟩, fact2, same2, len2, emp2, keep2⟩ :=
-        mergeIf_phase cfg hs (decide (st1.mv.length > 0)) inv1 hst1 len1 same1 h2
+        mergeIf_phase cfg bound law hs (decide (st1.mv.length > 0)) inv1 hst1 len1 same1 h2
       by_cases hc2 : decide (st1.mv.length > 0) = true ∧ (st2.merged.length > 0 ∨ st2.mv.length > 0)
       · rw [if_pos hc2] at h
         simp only [Except.ok.injEq, Prod.mk.injEq] at h
@@ -234,7 +244,7 @@ theorem next_spec (cfg : Cfg) (hs : 0 < cfg.size) :
           have := emp2 hc2.1 hmg
           rw [hmg, this.1] at hc2
           simp at hc2
-        | cons o ms => exact caseA_of_merged cfg ci hmg inv2 fact2 same2 len2
+        | cons o ms => exact caseA_of_merged cfg bound ci hmg inv2 fact2 same2 len2
       · rw [if_neg hc2] at h
         have hm2 : st2.merged = [] ∧ st2.mv = [] := by
           by_cases hcond : decide (st1.mv.length > 0) = true
@@ -254,7 +264,7 @@ theorem next_spec (cfg : Cfg) (hs : 0 < cfg.size) :
         rw [h3] at h
         simp only at h
         obtain ⟨⟨T3, inv3⟩, fact3, same3, len3, emp3, keep3⟩ :=
-          mergeIf_phase cfg hs (decide (st2.blocks.length > 0)) inv2 hm2.1 len2 same2 h3
+          mergeIf_phase cfg bound law hs (decide (st2.blocks.length > 0)) inv2 hm2.1 len2 same2 h3
         by_cases hc3 : decide (st2.blocks.length > 0) = true ∧ (st3.merged.length > 0 ∨ st3.mv.length > 0)
         · rw [if_pos hc3] at h
           simp only [Except.ok.injEq, Prod.mk.injEq] at h
@@ -264,7 +274,7 @@ theorem next_spec (cfg : Cfg) (hs : 0 < cfg.size) :
             have := emp3 hc3.1 hmg
             rw [hmg, this.1] at hc3
             simp at hc3
-          | cons o ms => exact caseA_of_merged cfg ci hmg inv3 fact3 same3 len3
+          | cons o ms => exact caseA_of_merged cfg bound ci hmg inv3 fact3 same3 len3
         · rw [if_neg hc3] at h
           have hm3 : st3.merged = [] ∧ st3.mv = [] ∧ st3.blocks = [] := by
             by_cases hcond : decide (st2.blocks.length > 0) = true
@@ -323,12 +333,12 @@ theorem next_spec (cfg : Cfg) (hs : 0 < cfg.size) :
             | ok st5 =>
             rw [h5] at h
             simp only at h
-            have len4 : bl.length ≤ 20 := by rw [l3]; exact ci.cap key'
-            have so5 := mergeStep_spec cfg inv4 rfl len4 h5
+            have len4 : LenOK bound bl.length := by rw [l3]; exact ci.cap key'
+            have so5 := mergeStep_spec cfg inv4 rfl (law _ len4) h5
             obtain ⟨fact5, same5⟩ := stepOut_facts (orig := bl) so5 (fun b hb => ⟨b, hb, SameStatic.refl b⟩)
             obtain ⟨T5, _, inv5⟩ := so5.hex
             simp only [List.nil_append] at inv5
-            have len5 : st5.blocks.length ≤ 20 := Nat.le_trans so5.hlen len4
+            have len5 : LenOK bound st5.blocks.length := lenOK_mono so5.hlen len4
             have hkey : keyLt k.key key' = true := by
               obtain ⟨f, hf, r, hr, hrk⟩ := l6 hbl
               have := ci.above f hf r hr
@@ -339,17 +349,17 @@ theorem next_spec (cfg : Cfg) (hs : 0 < cfg.size) :
               by_cases hk : k'' = key'
               · rw [hk, hnil'] at hb; simp at hb
               · rw [l4 k'' hk] at hb; exact ci.fresh k'' b hb
-            have hcap' : ∀ k'', (blocksFor (allRuns its' buf') k'').length ≤ 20 := by
+            have hcap' : ∀ k'', LenOK bound (blocksFor (allRuns its' buf') k'').length := by
               intro k''
               by_cases hk : k'' = key'
-              · rw [hk, hnil']; simp
+              · rw [hk, hnil']; intro m _; simp
               · rw [l4 k'' hk]; exact ci.cap k''
             by_cases hm5 : st5.merged.length = 0
             · -- the key produced nothing: RETRY
               rw [if_pos hm5] at h
               have hmg5 : st5.merged = [] := List.length_eq_zero_iff.mp hm5
               have he5 := so5.hempty hs hmg5
-              have ci5 : CurInv cfg ({ its := its', buf := buf', key := key', st := st5 } : Iter V) []
+              have ci5 : CurInv cfg bound ({ its := its', buf := buf', key := key', st := st5 } : Iter V) []
                   (restAt bl) bl := by
                 refine ⟨⟨T5, ?_⟩, ?_, len5, same5, l1, l2, hfresh', hcap', l7⟩
                 · show KInv T5 st5 ([] ++ outPts st5.merged.tail) (restAt bl)
@@ -487,9 +497,9 @@ theorem keyTail_outs_nil {size : Nat} {orig : List (Block V)} {target : Int → 
     rw [← kt.content a.1, h a.1] at this
     cases this
 
-theorem runIter_spec (cfg : Cfg) (hs : 0 < cfg.size) (rf : Nat) :
+theorem runIter_spec (cfg : Cfg) (bound : Option Nat) (law : SortLaw cfg bound) (hs : 0 < cfg.size) (rf : Nat) :
     ∀ (n : Nat) (k : Iter V) (Oe : Pts V) (target : Int → Option V) (orig : List (Block V)),
-      CurInv cfg k Oe target orig →
+      CurInv cfg bound k Oe target orig →
       ∀ seq, runIter cfg rf n k = .ok seq →
         ∃ outs rest, seq = outs.map (fun o => (k.key, o)) ++ rest ∧
           KeyTail cfg.size orig target Oe outs ∧ RestOK cfg (allRuns k.its k.buf) k.key rest := by
@@ -506,7 +516,7 @@ theorem runIter_spec (cfg : Cfg) (hs : 0 < cfg.size) (rf : Nat) :
     obtain ⟨more, k'⟩ := r
     rw [hn] at h
     simp only at h
-    have nx := next_spec cfg hs rf k Oe target orig ci more k' hn
+    have nx := next_spec cfg bound law hs rf k Oe target orig ci more k' hn
     cases more with
     | false =>
       simp only [Bool.not_false, if_true, Except.ok.injEq] at h
@@ -622,10 +632,10 @@ theorem runIter_spec (cfg : Cfg) (hs : 0 < cfg.size) (rf : Nat) :
 /-- the input files as the readers present them: per file ascending non-empty keys,
     fresh well-formed blocks, and at most 20 blocks per key over all files
     (so that `sort.Stable` stays an insertion sort) -/
-structure FilesOK (files : List (FileRuns V)) : Prop where
+structure FilesOK (bound : Option Nat) (files : List (FileRuns V)) : Prop where
   rwf : ∀ f ∈ files, RunsWF f
   fresh : ∀ k, ∀ b ∈ blocksFor files k, Fresh b
-  cap : ∀ k, (blocksFor files k).length ≤ 20
+  cap : ∀ k, LenOK bound (blocksFor files k).length
 
 theorem allRuns_init (files : List (FileRuns V)) :
     allRuns files (files.map (fun _ => (([] : Key), ([] : List (Block V))))) = files := by
@@ -635,13 +645,14 @@ theorem allRuns_init (files : List (FileRuns V)) :
 
 /-- **the compaction iterator**: the written sequence has ascending keys and holds, for
     every key, exactly the newest-wins content of that key's blocks (minus tombstones). -/
-theorem compactSeq_spec (cfg : Cfg) (hs : 0 < cfg.size) (files : List (FileRuns V)) (ok : FilesOK files)
+theorem compactSeq_spec (cfg : Cfg) (bound : Option Nat) (law : SortLaw cfg bound) (hs : 0 < cfg.size)
+    (files : List (FileRuns V)) (ok : FilesOK bound files)
     (seq : List (Key × OBlk V)) (h : compactSeq cfg files = .ok seq) :
     RestOK cfg files [] seq := by
   unfold compactSeq at h
   have hR : allRuns (Iter.init files).its (Iter.init files).buf = files := allRuns_init files
-  have ci : CurInv cfg (Iter.init files) [] (fun _ => none) [] := by
-    refine ⟨⟨0, ?_⟩, by simp [Iter.init], by simp [Iter.init], by simp [Iter.init], by simp [Iter.init],
+  have ci : CurInv cfg bound (Iter.init files) [] (fun _ => none) [] := by
+    refine ⟨⟨0, ?_⟩, by simp [Iter.init], by intro m _; simp [Iter.init], by simp [Iter.init], by simp [Iter.init],
       ?_, ?_, ?_, ?_⟩
     · refine ⟨by simp [Iter.init], by simpa [Iter.init] using asc_nil, by simp [Iter.init], ?_⟩
       intro t; simp [Iter.init, restAt]
@@ -655,12 +666,33 @@ theorem compactSeq_spec (cfg : Cfg) (hs : 0 < cfg.size) (files : List (FileRuns 
       cases hk : r.1 with
       | nil => exact absurd hk this
       | cons a as => rfl
-  obtain ⟨outs, rest, e1, kt, ro⟩ := runIter_spec cfg hs _ _ (Iter.init files) [] _ [] ci seq h
+  obtain ⟨outs, rest, e1, kt, ro⟩ := runIter_spec cfg bound law hs _ _ (Iter.init files) [] _ [] ci seq h
   have : outs = [] := keyTail_outs_nil kt (fun _ => rfl)
   subst this
   simp only [List.map_nil, List.nil_append] at e1
   subst e1
   rw [hR] at ro
   exact ro
+
+
+/-! ### the two sorts -/
+
+/-- the code's `sort.Stable(k.blocks)` is good for at most 20 blocks per key -/
+theorem stableLaw (size : Nat) (fast : Bool) : SortLaw { size := size, fast := fast } (some 20) := by
+  intro V l hl hw
+  exact stable_spec l hw (hl 20 rfl)
+
+/-- the same iterator with an insertion sort in place of `sort.Stable` -/
+def insertionCfg (size : Nat) (fast : Bool) : Cfg :=
+  { size := size, fast := fast, sort := fun _ => Sort.insertionSort blkLess }
+
+/-- an insertion sort over `blocks.Less` is good for any number of blocks -/
+theorem insertionLaw (size : Nat) (fast : Bool) : SortLaw (insertionCfg size fast) none := by
+  intro V l _ hw
+  obtain ⟨r1, r2, r3, r4⟩ := insertionSortAux_spec l [] (by simp) hw trivial
+  show AdjOK (Sort.insertionSort blkLess l) ∧ (∀ t, restAt (Sort.insertionSort blkLess l) t = restAt l t) ∧
+    (∀ b, b ∈ Sort.insertionSort blkLess l ↔ b ∈ l) ∧ (Sort.insertionSort blkLess l).length = l.length
+  unfold Sort.insertionSort
+  exact ⟨r1, by simpa using r2, by simpa using r3, by simpa using r4⟩
 
 end Influx.Model.Compact
